@@ -668,3 +668,22 @@ func sortedKeys[V any](m map[string]V) []string {
 	sort.Strings(ks)
 	return ks
 }
+
+// trySingleton replaces s by a constant if the path condition allows only one
+// value for it (decided with one query); otherwise s is returned unchanged.
+func (e *Explorer) trySingleton(s sym) value {
+	if e.model == nil || s.k == types.Bool {
+		return s
+	}
+	v0, ok := e.evaluator().evalBV(s.t)
+	if !ok {
+		return s
+	}
+	bits, _ := kindBits(s.k)
+	c := mkConst(v0, bits)
+	r, _ := e.solver.Check(append(append([]*Term{}, e.pc...), mkNot(mkEq(s.t, c))), "feas")
+	if r == "unsat" {
+		return concreteOfKind(s.k, v0)
+	}
+	return s
+}
